@@ -16,7 +16,10 @@ use crate::common::{catch, fnv, Engine, RunOutcome, Stats, Violation};
 use crate::rng::Rng;
 
 pub const SIZES: [u32; 12] = [0, 1, 3, 5, 8191, 8192, 8193, 8200, 9000, 16384, 20000, 65537];
-pub const NAMES: [&str; 8] = ["a", "b", "c", "ab", "bc", "abc", "a.b", "ca"];
+/// Entry names (bytes: Linux file names need not be UTF-8). Some concatenate equally, some differ only in bytes that are
+/// not valid UTF-8, one is the replacement character that a lossy conversion would produce.
+pub const NAMES: [&[u8]; 14] = [b"a", b"b", b"c", b"ab", b"bc", b"abc", b"a.b", b"ca", b"x\xE9", b"x\xE8", b"\xFF", b"\xFE", "x\u{FFFD}".as_bytes(), "x\u{e9}".as_bytes()];
+fn name_os(n: usize) -> &'static std::ffi::OsStr { use std::os::unix::ffi::OsStrExt; std::ffi::OsStr::from_bytes(NAMES[n]) }
 /// Explicit modification times (seconds since the epoch): far past, past, base, base + 1 s, next day, far future.
 pub const MTIMES: [u64; 6] = [946_684_800, 1_577_750_400, 1_577_836_800, 1_577_836_801, 1_577_923_200, 4_102_444_800];
 
@@ -102,6 +105,20 @@ impl Engine for FsEngine {
       else { FsState::File { size: rng.below(SIZES.len() as u64) as usize, kind: rng.below(3) as u8, seed: rng.below(3) as u8 } }
     };
     ops.push(FsOp::Set { state: gen_state(rng), mtime: rng.below(MTIMES.len() as u64) as usize });
+    if rng.chance(20) {
+      // Directed: two listings that a careless encoding of the entry names cannot tell apart (equal concatenations,
+      // names differing only in bytes that are not valid UTF-8), stamped and checked at one modification time.
+      const PAIRS: [(&[usize], &[usize]); 8] = [(&[0, 4], &[3, 2]), (&[5], &[0, 4]), (&[8], &[9]), (&[10], &[11]), (&[8], &[12]), (&[13], &[8]), (&[10, 8], &[11, 9]), (&[6], &[0, 1])];
+      let (a, b) = *rng.pick(&PAIRS);
+      let (a, b) = if rng.chance(50) { (a, b) } else { (b, a) };
+      let mt = rng.below(MTIMES.len() as u64) as usize;
+      let slot = rng.below(3) as u8;
+      ops.push(FsOp::Set { state: FsState::Dir { names: a.to_vec() }, mtime: mt });
+      ops.push(FsOp::Stamp { slot });
+      if rng.chance(30) { ops.push(FsOp::Check { slot }); }
+      ops.push(FsOp::Set { state: FsState::Dir { names: b.to_vec() }, mtime: mt });
+      ops.push(FsOp::Check { slot });
+    }
     for _ in 1..n {
       let mt = rng.below(MTIMES.len() as u64) as usize;
       ops.push(match rng.below(13) {
@@ -150,7 +167,7 @@ impl Engine for FsEngine {
               FsState::Dir { names } => {
                 fs::create_dir(&p).unwrap();
                 let mut set = BTreeSet::new();
-                for n in names { let n = *n % NAMES.len(); if set.insert(n) { fs::write(p.join(NAMES[n]), b"x").unwrap(); } }
+                for n in names { let n = *n % NAMES.len(); if set.insert(n) { fs::write(p.join(name_os(n)), b"x").unwrap(); } }
                 set_mtime(&p, mtime(*mt));
                 dir_generation += 1;
                 state = MState::Dir(set, dir_generation);
@@ -167,7 +184,7 @@ impl Engine for FsEngine {
           FsOp::DirAdd { name, mtime: mt } => {
             if let MState::Dir(set, _) = &mut state {
               let n = *name % NAMES.len();
-              if set.insert(n) { fs::write(p.join(NAMES[n]), b"x").unwrap(); dir_generation += 1; }
+              if set.insert(n) { fs::write(p.join(name_os(n)), b"x").unwrap(); dir_generation += 1; }
               let s2 = set.clone();
               state = MState::Dir(s2, dir_generation);
               set_mtime(&p, mtime(*mt));
@@ -179,7 +196,7 @@ impl Engine for FsEngine {
           FsOp::DirRemove { name, mtime: mt } => {
             if let MState::Dir(set, _) = &mut state {
               let n = *name % NAMES.len();
-              if set.remove(&n) { fs::remove_file(p.join(NAMES[n])).unwrap(); dir_generation += 1; }
+              if set.remove(&n) { fs::remove_file(p.join(name_os(n))).unwrap(); dir_generation += 1; }
               let s2 = set.clone();
               state = MState::Dir(s2, dir_generation);
               set_mtime(&p, mtime(*mt));
@@ -334,6 +351,6 @@ fn state_name(s: &MState) -> String {
   match s {
     MState::Absent => "absent".into(),
     MState::File(c) => format!("file[{} bytes, first {:?}]", c.len(), &c[..c.len().min(4)]),
-    MState::Dir(n, _) => format!("dir{:?}", n.iter().map(|i| NAMES[*i]).collect::<Vec<_>>()),
+    MState::Dir(n, _) => format!("dir{:?}", n.iter().map(|i| NAMES[*i].escape_ascii().to_string()).collect::<Vec<_>>()),
   }
 }
